@@ -32,7 +32,7 @@ func runC04(c *CaseCtx) {
 	}
 	u := &Universe{Buckets: buckets, DS: ds,
 		KVKeys:   [][]byte{[]byte("a"), []byte("b"), []byte("c"), []byte("bc"), []byte("abc"), []byte("ab"), []byte("|"), []byte("k")},
-		ListKeys: [][]byte{[]byte("a"), []byte("ab")}, SetKeys: [][]byte{[]byte("a"), []byte("b")}}
+		ListKeys: [][]byte{[]byte("a"), []byte("ab")}, SetKeys: [][]byte{[]byte("a"), []byte("b"), []byte("|b")}}
 	run := NewRunner(c, cfg, u, class)
 	c.Log("cfg %s buckets=%q", cfg, buckets)
 	if !run.Open() {
@@ -81,6 +81,22 @@ func runC04(c *CaseCtx) {
 			}
 		}
 	}
+	// the same for set keys: pairs whose plain or '|'-joined bucket and key strings coincide
+	var setCollide [][2]bk
+	for _, b1 := range buckets {
+		for _, b2 := range buckets {
+			if b1 >= b2 {
+				continue
+			}
+			for _, k1 := range u.SetKeys {
+				for _, k2 := range u.SetKeys {
+					if b1+string(k1) == b2+string(k2) || b1+"|"+string(k1) == b2+"|"+string(k2) {
+						setCollide = append(setCollide, [2]bk{{b1, k1}, {b2, k2}})
+					}
+				}
+			}
+		}
+	}
 	// crossTx: ONE transaction that writes several buckets: the same keys / members in all of them, and when the
 	// universe has them, two pairs whose bucket+key strings coincide. Only the model oracle applies to it.
 	ctr := 0
@@ -101,6 +117,11 @@ func runC04(c *CaseCtx) {
 			case x == 3:
 				t.Ops = append(t.Ops, Op{K: "Delete", B: b, Key: k})
 			}
+		}
+		if ds && len(setCollide) > 0 && r.Intn(2) == 0 {
+			p, m := setCollide[r.Intn(len(setCollide))], g.member()
+			t.Ops = append(t.Ops, Op{K: "SAdd", B: p[0].b, Key: p[0].k, Vals: [][]byte{m}}, Op{K: "SAdd", B: p[1].b, Key: p[1].k, Vals: [][]byte{m}})
+			c.Stat("colliding_set_keys_written_in_one_tx", 1)
 		}
 		if ds {
 			sk, m := g.pick(u.SetKeys), g.member()
